@@ -48,6 +48,9 @@ pub async fn poll_limited<F: Future>(fut: F, k: u32, at_wake: bool) -> Lim<F::Ou
         match fut.as_mut().poll(cx) {
             Poll::Ready(v) => Poll::Ready(Lim::Done(v)),
             Poll::Pending => {
+                // tokio's cooperative budget (128 operations per task poll) makes a channel operation
+                // return Pending although the channel has room: what suspended the future this time?
+                BUDGET_FORCED.with(|b| b.set(!tokio::task::coop::has_budget_remaining()));
                 polls += 1;
                 if polls >= k && !at_wake {
                     Poll::Ready(Lim::Dropped)
@@ -61,6 +64,8 @@ pub async fn poll_limited<F: Future>(fut: F, k: u32, at_wake: bool) -> Lim<F::Ou
 }
 
 thread_local! {
+    /// the last Pending of a future under `poll_limited` came with tokio's cooperative budget used up
+    static BUDGET_FORCED: std::cell::Cell<bool> = std::cell::Cell::new(false);
     /// payload bytes per frame of the multi-frame messages (480 for 512-byte frames)
     static FRAME_UNIT: std::cell::Cell<usize> = std::cell::Cell::new(480);
 }
@@ -214,7 +219,14 @@ fn send_counters() -> (u64, u64, u64, u64, u64) {
 /// dropped while one of *those* waits for room. A send that is still handing over transfers after
 /// the whole payload has been queued is doing something the recorded finding does not describe.
 fn classify_send_drop(before: (u64, u64, u64, u64, u64), after: (u64, u64, u64, u64, u64), need: u64) -> &'static str {
-    let waiting_for_room = after.3 > before.3 && sim::sched_point_last("observe.sender.transfer.no_room") > sim::sched_point_last("observe.sender.transfer_queued");
+    // ... or, the same await with another reason for being pending: the hand-over of a transfer
+    // suspended because the task's cooperative budget was used up (many link-level transfers, or several
+    // sends completed within one poll of the application's task)
+    let budget_forced = BUDGET_FORCED.with(|b| b.get());
+    if budget_forced {
+        sim::probe("send-suspended-by-the-cooperative-budget");
+    }
+    let waiting_for_room = budget_forced || (after.3 > before.3 && sim::sched_point_last("observe.sender.transfer.no_room") > sim::sched_point_last("observe.sender.transfer_queued"));
     let queued = after.4 - before.4;
     if after.0 == before.0 || after.2 > before.2 {
         "" // no credit taken yet, or the delivery was queued completely
@@ -549,6 +561,11 @@ async fn run_send(enumerated: bool) {
         sim::set_observe_ignore_group(Some(2));
     }
     let last_uid = 100 + N_MSGS - 1;
+    // the listener's receiver starts with the acceptor's default credit and is then given the credit of
+    // this run: the client waits for that second statement before it sends (a sender that used the
+    // default grant while the lower one was on its way would run into C09's recorded finding)
+    let credit_set: Slot<()> = Slot::new();
+    let credit_set2 = credit_set.clone();
     // listener: a receiver that takes deliveries until the last message (never cancelled) has arrived
     let received: Rc<RefCell<Vec<Msg>>> = Rc::new(RefCell::new(Vec::new()));
     let ldone: Slot<Result<(), String>> = Slot::new();
@@ -610,9 +627,12 @@ async fn run_send(enumerated: bool) {
                         return;
                     }
                 }
+                credit_set2.put(());
+                let late_busy: Rc<std::cell::Cell<bool>> = Rc::new(std::cell::Cell::new(false));
                 // (the disposer takes over the credit mode the receiver has at this moment)
                 {
                     let (held, stop_late, disposer) = (held.clone(), stop_late.clone(), r.disposer());
+                    let busy = late_busy.clone();
                     sim::spawn("listener-late-accepter", async move {
                         // (when there is nothing to accept it sleeps longer: a run that is stuck for another
                         // reason is not kept busy by this task)
@@ -622,13 +642,17 @@ async fn run_send(enumerated: bool) {
                                 continue;
                             }
                             sim::sleep_ms(pick(&[1u64, 1, 2, 5, 20])).await;
+                            // (the link must not be closed under a disposal that is under way)
+                            busy.set(true);
                             let h = held.borrow_mut().pop_front();
                             if let Some(h) = h {
                                 if disposer.accept(&h).await.is_err() {
+                                    busy.set(false);
                                     break;
                                 }
                                 sim::probe("outstanding-delivery-settled-between-sends");
                             }
+                            busy.set(false);
                         }
                     });
                 }
@@ -680,6 +704,9 @@ async fn run_send(enumerated: bool) {
                     }
                 }
                 stop_late.set(true);
+                while late_busy.get() {
+                    sim::sleep_ms(1).await;
+                }
                 loop {
                     let h = held.borrow_mut().pop_front();
                     match h {
@@ -734,6 +761,10 @@ async fn run_send(enumerated: bool) {
             None => return,
         }
     }
+    if sim::op("listener sets its credit", credit_set.take()).await.is_none() {
+        return;
+    }
+    world::quiesce_pair(&pair.net).await;
     let mut send_order: Vec<u64> = Vec::new();
     let mut pre_futs = Vec::new();
     for (i, m) in pre.iter().enumerate() {
